@@ -608,3 +608,128 @@ def c08(seed, tier):
         [case([]), case([set_str("A", b'a"b'), set_str("B", b"`")]), case([set_str("A", b"c\\d"), set_str("B", b"'")])])]))
     scen += known_shapes("c08k")
     return {"scenarios": scen}
+
+
+def with_ctx_flips(cases, maxk):
+    """For every value: the undisturbed run, then a context turning done at its k-th Err() call, k = 0..maxk,
+    for Canceled and DeadlineExceeded."""
+    out = []
+    for c in cases:
+        out.append(case(c["sets"], nil=c.get("nil", False)))
+        for k in range(maxk + 1):
+            out.append(case(c["sets"], nil=c.get("nil", False), flip=k, err="canceled" if k % 2 == 0 else "deadline"))
+            if k in (0, 1, maxk):
+                out.append(case(c["sets"], nil=c.get("nil", False), flip=k, err="deadline" if k % 2 == 0 else "canceled"))
+    return out
+
+
+def c15(seed, tier):
+    rng = random.Random(seed)
+    s = basic("string")
+    i64 = basic("int")
+    scen = []
+    shapes = []
+    # flat
+    shapes.append(("flat", [fld("A", ["//govalid:required"], s), fld("B", ["//govalid:gt=1", "//govalid:lte=5"], i64),
+                            fld("C", ["//govalid:email"], s)], []))
+    # fields without checks in between, first and last
+    shapes.append(("gaps", [fld("P0", [], s), fld("A", ["//govalid:required"], s), fld("P1", [], i64), fld("P2", [], SLICE),
+                            fld("B", ["//govalid:minitems=1"], SLICE), fld("P3", [], s)], []))
+    # nested two levels
+    shapes.append(("nested", [fld("A", ["//govalid:required"], s),
+                              fld("N", [], nested=[fld("X", ["//govalid:minlength=2"], s), fld("Q", [], i64),
+                                                   fld("M", [], nested=[fld("Y", ["//govalid:gte=0"], i64), fld("Z", ["//govalid:uuid"], s)])]),
+                              fld("T", ["//govalid:ipv4"], s)], []))
+    # struct-level markers
+    shapes.append(("slevel", [fld("A", [], s), fld("B", ["//govalid:maxlength=3"], s), fld("K", [], i64), fld("L", [], SLICE)], ["//govalid:required"]))
+    # a single field; a required on a type with an empty condition (no check but a validator)
+    shapes.append(("one", [fld("A", ["//govalid:required"], s)], []))
+    shapes.append(("emptycond", [fld("O", ["//govalid:required"], OTHER_STRUCT), fld("A", ["//govalid:required"], s)], []))
+    for nm, fields, gendoc in shapes:
+        lat = []
+
+        def walk(fs, prefix):
+            for f in fs:
+                if "nested" in f:
+                    walk(f["nested"], prefix + f["names"][0] + ".")
+                else:
+                    lat.append((prefix + f["names"][0], f))
+        walk(fields, "")
+        valid, invalid = [], []
+        for p, f in lat:
+            vk = f["type"]["vk"]
+            if vk == "string":
+                good = {"A": b"ok", "B": b"ab", "C": b"a@b.cd", "X": b"abc", "Z": b"550e8400-e29b-41d4-a716-446655440000", "T": b"1.2.3.4"}.get(f["names"][0], b"x")
+                valid.append(set_str(p, good))
+                invalid.append(set_str(p, b""))
+            elif vk == "int":
+                valid.append(set_int(p, 3))
+                invalid.append(set_int(p, -9))
+            elif vk == "coll":
+                valid.append(set_coll(p, False, 1))
+                invalid.append(set_coll(p, True, 0))
+        nf = len(lat)
+        base = [case(valid), case(invalid), case([x if i % 2 else y for i, (x, y) in enumerate(zip(valid, invalid))])]
+        cases = with_ctx_flips(base, nf + 3)
+        cases.append(case([], nil=True, flip=0))
+        cases.append(case([], nil=True))
+        aux = [OTHER_STRUCT_AUX] if nm == "emptycond" else []
+        scen.append(scenario("c15" + nm, [struct("T", fields, cases, gendoc=gendoc)], aux=aux))
+    for i in range(6 if tier == "quick" else 40):
+        fields, lat = rand_struct(rng, "T", rng.randint(1, 8), 2 if i % 2 else 0)
+        base = cases_from_lattices(rng, lat, 4, 0)
+        scen.append(scenario("c15r%d" % i, [struct("T", fields, with_ctx_flips(base, len(lat) + 3))]))
+    return {"scenarios": scen}
+
+
+def c17(seed, tier):
+    """adversarial lattice for every field type used by the C01-C09 scenarios"""
+    rng = random.Random(seed)
+    s = basic("string")
+    fields = []
+    lat = []
+    big = [b"", b"\x00", b"\xff" * 7, b"a" * 300, "é".encode() * 200, b"a@" + b"b" * 70 + b".c", b"http://" + b"\xff" * 50,
+           b"-" * 36, b"0" * 36, b"::::::::", b"1." * 100, b"@" * 64, b"." * 255, b"a" * 64 + b"@" + b"b." * 120 + b"c"]
+    for m in FORMAT_MEMBERS:
+        fields.append(fld("S_" + m, ["//govalid:" + m, "//govalid:required", "//govalid:maxlength=10"], s))
+        lat.append(("S_" + m, [lambda p, z=z: set_str(p, z) for z in big + FORMAT_MEMBERS[m] + FORMAT_NONMEMBERS[m]]))
+    fields.append(fld("S_enum", ['//govalid:enum=a,b"c, \\'], s))
+    lat.append(("S_enum", [lambda p, z=z: set_str(p, z) for z in big[:6] + [b'b"c', b"\\"]]))
+    for tn in NUMERIC_TYPES:
+        t = basic(tn)
+        fields.append(fld("N_" + tn, ["//govalid:gt=0", "//govalid:lte=100", "//govalid:required", "//govalid:enum=1,2"], t))
+        if t["vk"] == "int":
+            lat.append(("N_" + tn, [lambda p, z=z: set_int(p, z) for z in int_lattice(t, [0, 100])]))
+        elif t["vk"] == "float32":
+            lat.append(("N_" + tn, [lambda p, z=z: set_f32(p, z) for z in F32_SPECIAL]))
+        else:
+            lat.append(("N_" + tn, [lambda p, z=z: set_f64(p, z) for z in F64_SPECIAL]))
+    for nm, t in (("C_sl", SLICE), ("C_mp", MAP), ("C_ch", CHAN)):
+        fields.append(fld(nm, ["//govalid:minitems=1", "//govalid:maxitems=2", "//govalid:required"], t))
+        lat.append((nm, [lambda p: set_coll(p, True, 0), lambda p: set_coll(p, False, 0), lambda p: set_coll(p, False, 3), lambda p: set_coll(p, False, 1000)]))
+    for nm, t in (("P_ptr", POINTER), ("P_if", IFACE), ("P_fn", FUNC), ("P_err", ERROR)):
+        fields.append(fld(nm, ["//govalid:required"], t))
+        lat.append((nm, [lambda p: set_nilable(p, True), lambda p: set_nilable(p, False)]))
+    fields.append(fld("A_arr", ["//govalid:required", "//govalid:minitems=5"], array(3)))
+    fields.append(fld("Cx", ["//govalid:required"], basic("complex128")))
+    lat.append(("Cx", [lambda p: set_complex(p, True), lambda p: set_complex(p, False)]))
+    top = struct("T", fields, cases_from_lattices(rng, lat, 120 if tier == "quick" else 600, 6) + [case([], nil=True)])
+    nested_fields = [fld("In", [], nested=[fld("Deep", [], nested=fields)])]
+    nlat = [("In.Deep." + p, v) for p, v in lat]
+    nested = struct("U", nested_fields, cases_from_lattices(rng, nlat, 60 if tier == "quick" else 300, 4) + [case([], nil=True)])
+    return {"scenarios": [scenario("c17", [top, nested])]}
+
+
+def c17_huge():
+    """1 MiB strings: run by the compiled code only (too large to ship to the model as terms)"""
+    s = basic("string")
+    fields = []
+    sets_list = []
+    huge = [b"a" * (1 << 20), b"\xff" * (1 << 20), "é".encode() * (1 << 19), b"a@" + b"b" * (1 << 20), b"http://" + b"a" * (1 << 20),
+            b"1" * (1 << 20), b"." * (1 << 20)]
+    for m in FORMAT_MEMBERS:
+        fields.append(fld("S_" + m, ["//govalid:" + m, "//govalid:minlength=2", "//govalid:maxlength=10", "//govalid:length=5"], s))
+    cases = []
+    for h in huge:
+        cases.append(case([set_str("S_" + m, h) for m in FORMAT_MEMBERS]))
+    return {"scenarios": [scenario("c17huge", [struct("T", fields, cases)])]}
